@@ -3,6 +3,7 @@
 from __future__ import annotations
 
 import ast
+import os
 
 import z3
 
@@ -602,6 +603,22 @@ class LoopMixin:
                         where=where or f"line {getattr(self, 'cur_line', 0)}")
         self.solve(ob)
         self.obligs.append(ob)
+        if ob.result == "refuted" and os.environ.get("TXVC_DEBUG_EVAL") and getattr(self, "_last_model", None) is not None \
+                and kind != "CANARY" and not ob.reason:
+            # development aid: values of spec expressions in the counter-model
+            env = dict(getattr(self, "debug_env", None) or self.spec_env_default())
+            print(f"[debug] {kind}:{label} refuted on path {self.branch_log}")
+            for text_ in os.environ["TXVC_DEBUG_EVAL"].split(";;"):
+                try:
+                    from .spec import SpecEval
+
+                    tv_ = SpecEval(self, env, self.entry_heap, self.heap, {}).expr(text_)
+                    r_ = tv_.r
+                    print(f"[debug]   {text_} = {self._last_model.eval(r_, model_completion=True) if hasattr(r_, 'sort') else r_}")
+                except Exception as e_:  # noqa: BLE001
+                    print(f"[debug]   {text_}: {type(e_).__name__}: {e_}")
+            if os.environ.get("TXVC_DEBUG_STOP"):
+                os._exit(7)
         # after an obligation has been checked it may be used as a fact
         self.assume(goal)
         return ob
